@@ -83,6 +83,8 @@ type treeRun struct {
 	nsp   []string // per call: create / mkdir of a new name in an existing directory: 1 = refused for lack of space, 0 = not; "-" otherwise
 	rep   *rawReport
 	bad   bool // the image stopped being readable: the case is dropped
+	// zero-length writes are drawn off the trigger of fat-empty-write-not-noop while that is in the tree
+	emptyAsFound bool
 }
 
 func (t *treeRun) isDir(p string) bool {
@@ -333,6 +335,16 @@ func (t *treeRun) randTok0(r *hx.Rng, bpc int, tight bool) string {
 		if tight && r.Chance(15) {
 			ln = int(t.v.cfg.Size) // cannot fit
 		}
+		if r.Chance(18) {
+			// a zero-length write: the model changes nothing; off the trigger of fat-empty-write-not-noop while that is in the tree
+			zoff := r.Intn(size + bpc + 1)
+			if r.Chance(40) {
+				zoff = 0
+			}
+			if !(t.emptyAsFound && zeroTrigger(int64(size), int64(zoff), bpc)) {
+				return fmt.Sprintf("w:%s:%d:0:0", joinP(dir, n), zoff)
+			}
+		}
 		return fmt.Sprintf("w:%s:%d:%d:%d", joinP(dir, n), off, ln, r.Intn(251))
 	case k < 14:
 		n := existing(false, true)
@@ -454,7 +466,7 @@ func (e *eng) corrTree(r *hx.Rng) {
 			rootChain := u32s(rep.Root.Chain)
 			rootBase := rootBaseSlots(v, rep)
 			rootPre := rootPreHex(v, rep)
-			t := &treeRun{v: v, rep: rep}
+			t := &treeRun{v: v, rep: rep, emptyAsFound: e.emptyAsFound}
 			free := func() int {
 				f := 0
 				for cl := uint32(2); cl < lim; cl++ {
@@ -486,6 +498,32 @@ func (e *eng) corrTree(r *hx.Rng) {
 				}
 				t.do("m:sub/Deep Directory")
 				t.do("c:sub/Deep Directory/b.txt")
+			case 2: // zero-length writes: on a new empty file, after O_TRUNC, inside / at EOF of a non-empty file; then new files and directories
+				kind = "zero-length"
+				t.do("c:A.TXT")
+				t.do("w:A.TXT:0:0:0")
+				t.do("m:sub")
+				t.do("c:sub/b.txt")
+				t.do("w:sub/b.txt:0:0:0")
+				t.do("m:sub/d2")
+				t.do(fmt.Sprintf("w:sub/b.txt:0:%d:9", bpc+3))
+				t.do("w:A.TXT:0:7:4")
+				t.do(fmt.Sprintf("w:sub/b.txt:%d:0:0", bpc+3)) // at EOF
+				t.do(fmt.Sprintf("w:sub/b.txt:%d:0:0", bpc))   // on the boundary between its clusters
+				t.do("w:sub/b.txt:5:0:0")
+				t.do("t:sub/b.txt")
+				t.do("w:sub/b.txt:0:0:0") // emptied by O_TRUNC
+				t.do("c:C")
+				t.do(fmt.Sprintf("w:C:0:%d:11", 2*bpc))
+				t.do("w:sub/b.txt:0:3:2")
+				t.do(fmt.Sprintf("w:C:%d:0:0", bpc))
+				if !e.emptyAsFound {
+					t.do(fmt.Sprintf("w:C:%d:0:0", 2*bpc))   // at EOF on a cluster boundary
+					t.do(fmt.Sprintf("w:A.TXT:%d:0:0", bpc)) // past EOF
+					t.do("w:sub/b.txt:9:0:0")
+					t.do("c:readme.md")
+					t.do(fmt.Sprintf("w:readme.md:0:%d:1", bpc+1))
+				}
 			case 3: // ENOSPC inside a multi-cluster subdirectory
 				kind = "enospc-subdir"
 				spc := bpc / 32              // directory slots per cluster
